@@ -10,6 +10,7 @@ import (
 	"math/big"
 	"runtime"
 	"sort"
+	"strconv"
 	"strings"
 	"unicode"
 	"unicode/utf8"
@@ -23,6 +24,27 @@ type big_Float = big.Float
 func runtimeStack(buf []byte) int { return runtime.Stack(buf, false) }
 
 func (m *Machine) initSpecialGlobals() {
+	// os.Stdout / os.Stderr: distinct non-nil *os.File values; writes through
+	// them are recorded as output events by the fmt/os intercepts
+	if op := m.prog.pkgs["os"]; op != nil {
+		if ft, ok := op.Members["File"].(*ssa.Type); ok {
+			for _, name := range []string{"Stdout", "Stderr", "Stdin"} {
+				if g, ok := op.Members[name].(*ssa.Global); ok {
+					m.specialGlobal = true
+					c := m.globalCell(g)
+					m.specialGlobal = false
+					fc := &Cell{V: zero(ft.Type(), c.O), O: c.O}
+					c.V = Ptr{fc}
+					switch name {
+					case "Stdout":
+						m.stdoutCell = fc
+					case "Stderr":
+						m.stderrCell = fc
+					}
+				}
+			}
+		}
+	}
 	// crypto/rand.Reader: a non-nil io.Reader whose dynamic type is the
 	// package's own reader type; its Read method is intercepted below.
 	if rp := m.prog.pkgs["crypto/rand"]; rp != nil {
@@ -115,6 +137,46 @@ func (m *Machine) intercept(fn *ssa.Function, args []Val, caller *frame, site ss
 		}
 	case "(*sync.Map).Load", "(*sync.Map).Store", "(*sync.Map).LoadOrStore", "(*sync.Map).Delete", "(*sync.Map).LoadAndDelete", "(*sync.Map).Range", "(*sync.Map).Swap", "(*sync.Map).CompareAndSwap":
 		return func() Val { return m.syncMapOp(fn.Name(), args, caller) }
+	case "flag.NewFlagSet":
+		return func() Val {
+			o := m.newObj("flag.FlagSet " + argStrOr(args[0], "?"))
+			c := &Cell{V: tFalse, O: o}
+			if m.flagSets == nil {
+				m.flagSets = map[*Cell]*flagSetModel{}
+			}
+			m.flagSets[c] = &flagSetModel{name: argStrOr(args[0], "?"), vars: map[string]*flagVar{}}
+			return Ptr{c}
+		}
+	case "(*flag.FlagSet).Int", "(*flag.FlagSet).String", "(*flag.FlagSet).Bool":
+		return func() Val {
+			fs := m.flagSets[args[0].(Ptr).C]
+			if fs == nil {
+				m.unmodelled("flag variable on an unmodelled FlagSet")
+			}
+			o := m.newObj("flag variable " + argStrOr(args[1], "?"))
+			c := &Cell{V: args[2], O: o}
+			kind := strings.ToLower(fn.Name())
+			fs.vars[argStrOr(args[1], "?")] = &flagVar{kind: kind, cell: c}
+			fs.order = append(fs.order, argStrOr(args[1], "?"))
+			return Ptr{c}
+		}
+	case "(*flag.FlagSet).Parse":
+		return func() Val { return m.flagParse(args[0].(Ptr).C, args[1].(SliceV)) }
+	case "flag.Parse":
+		return func() Val { return nil }
+	case "io/ioutil.ReadFile", "os.ReadFile":
+		return func() Val {
+			if !m.fileSet || m.fileContent == nil {
+				return TupleV{SliceV{}, m.makeError("open: no such file or directory")}
+			}
+			bs := m.fileContent.Bytes()
+			o := m.newObj("file content")
+			a := &ArrObj{E: make([]*Cell, len(bs)), O: o}
+			for i, b := range bs {
+				a.E[i] = &Cell{V: b, O: o}
+			}
+			return TupleV{SliceV{A: a, Len: len(bs), Cap: len(bs)}, Iface{}}
+		}
 	case "(*sync.Once).Do":
 		return func() Val { m.unmodelled("sync.Once.Do"); return nil }
 	case "(*github.com/deckarep/golang-set.threadUnsafeSet).Iter":
@@ -158,13 +220,13 @@ func (m *Machine) intercept(fn *ssa.Function, args []Val, caller *frame, site ss
 	case "fmt.Fprintf":
 		return func() Val {
 			s := m.format(args[1], args[2].(SliceV))
-			m.output("writer fmt.Fprintf", s, args[2].(SliceV))
+			m.output(m.writerName(args[0])+" fmt.Fprintf", s, args[2].(SliceV))
 			return TupleV{bv64(s.Len()), Iface{}}
 		}
 	case "fmt.Fprintln", "fmt.Fprint":
 		return func() Val {
 			s := m.formatPlain(args[1].(SliceV), name == "fmt.Fprintln")
-			m.output("writer "+name, s, args[1].(SliceV))
+			m.output(m.writerName(args[0])+" "+name, s, args[1].(SliceV))
 			return TupleV{bv64(s.Len()), Iface{}}
 		}
 	case "log.Println", "log.Print":
@@ -203,7 +265,14 @@ func (m *Machine) intercept(fn *ssa.Function, args []Val, caller *frame, site ss
 		}
 	case "(*os.File).Write", "(*os.File).WriteString":
 		return func() Val {
-			m.outputs = append(m.outputs, OutEvent{Sink: "file " + name, Tainted: valTainted(args[1], 0)})
+			ev := OutEvent{Sink: m.writerName(Iface{T: types.Typ[types.Int], V: args[0]}) + " " + name, Tainted: valTainted(args[1], 0)}
+			if s, ok := args[1].(*StrV); ok {
+				ev.Str = s
+				if s.Conc() {
+					ev.Text = s.S
+				}
+			}
+			m.outputs = append(m.outputs, ev)
 			return TupleV{bv64(0), Iface{}}
 		}
 	case "math.Log2", "math.Exp2", "math.Log", "math.Exp", "math.Sqrt", "math.Floor", "math.Ceil", "math.Abs", "math.Log10", "math.Log1p", "math.Trunc", "math.Round":
@@ -588,6 +657,15 @@ func (m *Machine) drawSummary(n *Term) Val {
 	if m.branch(Eq(n, BV(32, 0)), "draw bound zero") {
 		panic(&goPanic{v: Iface{T: types.Typ[types.String], V: mkStr("randomUint32n called with 0")}, msg: "randomUint32n called with 0"})
 	}
+	if m.replayIdx >= 0 && m.replayIdx < len(m.draws) && m.replayIdx < m.replayEnd {
+		// second run on the same draws (vReplayDraws): reuse the recorded value
+		old := m.draws[m.replayIdx]
+		m.replayIdx++
+		m.draws = append(m.draws, drawRec{N: n, D: old.D})
+		m.reads++
+		m.assume(Cmp("bvult", old.D, n))
+		return old.D
+	}
 	d := Var(fmt.Sprintf("draw%d", len(m.draws)), 32)
 	m.draws = append(m.draws, drawRec{N: n, D: d})
 	// the tape that realises this draw: the accepted word is d itself
@@ -731,6 +809,31 @@ func (m *Machine) formatPlain(args SliceV, ln bool) *StrV {
 		allc = allc && c
 	}
 	if !allc {
+		// symbolic string operands: Println joins its operands with blanks
+		if ln {
+			out := &StrV{}
+			ok := true
+			for i := 0; i < args.Len; i++ {
+				var piece *StrV
+				if s := m.symbolicStringArg(args.A.E[args.Off+i].V.(Iface)); s != nil {
+					piece = s
+				} else if v, c, _ := m.nativeArg(args.A.E[args.Off+i].V.(Iface)); c {
+					piece = mkStr(fmt.Sprint(v))
+				} else {
+					ok = false
+					break
+				}
+				if i > 0 {
+					out = strConcat(out, mkStr(" "))
+				}
+				out = strConcat(out, piece)
+			}
+			if ok {
+				out = strConcat(out, mkStr("\n"))
+				out.T = out.T || taint
+				return out
+			}
+		}
 		return &StrV{S: "<message with symbolic arguments>", T: taint}
 	}
 	if ln {
@@ -739,8 +842,46 @@ func (m *Machine) formatPlain(args SliceV, ln bool) *StrV {
 	return &StrV{S: fmt.Sprint(nat...), T: taint}
 }
 
+// symbolicStringArg returns the string an operand prints as when it is a
+// string (or has a String/Error method) with symbolic content.
+func (m *Machine) symbolicStringArg(i Iface) *StrV {
+	if i.T == nil {
+		return nil
+	}
+	for _, meth := range []string{"Error", "String"} {
+		if f := m.prog.lookupMethodByName(i.T, meth); f != nil && f.Signature.Params().Len() == 0 && f.Signature.Results().Len() == 1 && isString(f.Signature.Results().At(0).Type()) {
+			if p, ok := i.V.(Ptr); ok && p.C == nil {
+				return nil
+			}
+			return m.callFn(f, []Val{i.V}, nil, nil, nil).(*StrV)
+		}
+	}
+	if s, ok := i.V.(*StrV); ok {
+		return s
+	}
+	if inner, ok := i.V.(Iface); ok {
+		return m.symbolicStringArg(inner)
+	}
+	return nil
+}
+
+// writerName classifies an io.Writer argument: stdout, stderr or another writer.
+func (m *Machine) writerName(w Val) string {
+	if i, ok := w.(Iface); ok {
+		if p, ok := i.V.(Ptr); ok && p.C != nil {
+			switch p.C {
+			case m.stdoutCell:
+				return "stdout"
+			case m.stderrCell:
+				return "stderr"
+			}
+		}
+	}
+	return "writer"
+}
+
 func (m *Machine) output(sink string, s *StrV, args SliceV) {
-	ev := OutEvent{Sink: sink, Tainted: s.Tainted()}
+	ev := OutEvent{Sink: sink, Tainted: s.Tainted(), Str: s}
 	if s.Conc() {
 		ev.Text = s.S
 	}
@@ -1166,4 +1307,93 @@ func (m *Machine) syncMapOp(op string, args []Val, caller *frame) Val {
 	}
 	m.unmodelled("sync.Map.%s", op)
 	return nil
+}
+
+func argStrOr(v Val, d string) string {
+	if s, ok := v.(*StrV); ok && s.Conc() {
+		return s.S
+	}
+	return d
+}
+
+// flagParse models (*flag.FlagSet).Parse with ExitOnError for concrete
+// arguments: -name, --name, -name=value, --name=value, "-name value" for
+// non-boolean flags; parsing stops at the first non-flag argument or "--";
+// an undefined flag, a missing value or a malformed integer or boolean prints
+// a message and exits with status 2 (documented behaviour of package flag).
+func (m *Machine) flagParse(fsCell *Cell, argv SliceV) Val {
+	fs := m.flagSets[fsCell]
+	if fs == nil {
+		m.unmodelled("Parse on an unmodelled FlagSet")
+	}
+	args, ok := m.strSliceToNative(argv)
+	if !ok {
+		m.unmodelled("flag parsing of symbolic arguments")
+	}
+	usageExit := func(msg string) {
+		m.outputs = append(m.outputs, OutEvent{Sink: "stderr flag", Text: msg})
+		m.outputs = append(m.outputs, OutEvent{Sink: "exit", Text: "2"})
+		panic(&abortPath{"exit", "2"})
+	}
+	for i := 0; i < len(args); i++ {
+		a := args[i]
+		if len(a) < 2 || a[0] != '-' {
+			break
+		}
+		name := a[1:]
+		if name[0] == '-' {
+			name = name[1:]
+			if name == "" {
+				break
+			}
+		}
+		if name == "" || name[0] == '-' || name[0] == '=' {
+			usageExit("bad flag syntax: " + a)
+		}
+		val, hasVal := "", false
+		if k := strings.IndexByte(name, '='); k >= 0 {
+			name, val, hasVal = name[:k], name[k+1:], true
+		}
+		if name == "h" || name == "help" {
+			if _, defined := fs.vars[name]; !defined {
+				m.outputs = append(m.outputs, OutEvent{Sink: "stderr flag", Text: "usage"})
+				m.outputs = append(m.outputs, OutEvent{Sink: "exit", Text: "0"})
+				panic(&abortPath{"exit", "0"})
+			}
+		}
+		fv, defined := fs.vars[name]
+		if !defined {
+			usageExit("flag provided but not defined: -" + name)
+		}
+		if fv.kind == "bool" {
+			b := true
+			if hasVal {
+				pb, err := strconv.ParseBool(val)
+				if err != nil {
+					usageExit("invalid boolean value")
+				}
+				b = pb
+			}
+			m.storeCell(fv.cell, Bool(b), "flag.Parse")
+			continue
+		}
+		if !hasVal {
+			if i+1 >= len(args) {
+				usageExit("flag needs an argument: -" + name)
+			}
+			i++
+			val = args[i]
+		}
+		switch fv.kind {
+		case "int":
+			n, err := strconv.ParseInt(val, 0, 64)
+			if err != nil {
+				usageExit("invalid value for flag -" + name)
+			}
+			m.storeCell(fv.cell, BV(64, uint64(n)), "flag.Parse")
+		default:
+			m.storeCell(fv.cell, mkStr(val), "flag.Parse")
+		}
+	}
+	return Iface{}
 }
